@@ -8,7 +8,8 @@ CONSTANTS
   MaxFaults = 2
   FaultKinds = {"cut", "relay", "remote"}
   Scenarios = {"local", "remote"}
-  AlReader = TRUE
+  AlReader = FALSE
+  AlOffsets = {0}
   A_CreateBeforePoll = TRUE
   KF_CancelNotComplete = FALSE
   DumpLocal = "local_vectors.ndjson"
